@@ -1,48 +1,10 @@
-KEY = "choose panics (cephes: parameter out of bounds) when the committee size exceeds the total stake"
-KNOWN = [{
-    "property": "C04", "status": "open", "key": KEY,
-    "text": "choose (consensus/ucon/sortition.go) panics with 'cephes: parameter out of bounds' whenever the committee "
-            "size exceeds the total stake (committee/total > 1), for every hash other than 0 and 2^256-1 and every "
-            "stake >= 1; VrfSortition, VrfVerifySortition and VrfVerifyPriority propagate the panic: witness "
-            "corpus/C04/w1_choose_panics_committee_exceeds_total.json, repair "
-            "fixes/C04_choose_panics_committee_exceeds_total.diff",
-    "witness": ["corpus/C04/w1_choose_panics_committee_exceeds_total.json",
-                "corpus/C04/w2_verifier_panics_committee_exceeds_total.json"],
-}]
-
-
-def check(pid, tier, seed):
-    """standard_check, with the C04 finding listed here until it is moved to
-    /verif/known_findings.json (builders do not edit shared files)."""
-    import vf
-    orig = vf.load_known
-
-    def still_fails():
-        # the witness is replayed on the harness just built against the tree under check
-        import os
-        binp = os.path.join(vf.BUILD, "c04")
-        wit = os.path.join(vf.VERIF, "corpus", "C04", "w1_choose_panics_committee_exceeds_total.json")
-        if not os.path.exists(binp):
-            return True
-        rc, _ = vf.sh([binp, "replay", "-file", wit], env=vf.GOENV, timeout=120)
-        return rc == 1
-
-    def load_known(p):
-        ks = orig(p)
-        if p == "C04" and not [k for k in ks if k.get("key") == KEY] and still_fails():
-            ks = ks + KNOWN
-        return ks
-    vf.load_known = load_known
-    try:
-        return vf.standard_check(pid, tier, seed)
-    finally:
-        vf.load_known = orig
-
+# The finding "choose panics when the committee size exceeds the total stake" was repaired in /repo by commit
+# 839997b (fixes/C04_choose_panics_committee_exceeds_total.{md,diff}).  It is no longer listed as open: the witnesses
+# stay in corpus/C04 and a regression is reported as a VIOLATION.
 
 SPEC = {
     "level_text": "Coq theorems over all hashes, stakes and probabilities: search returns the least satisfying index; the model's executable distribution function is the binomial distribution (trial recursion = closed-form sum, mirror law); with exact arithmetic choose returns, in every regime (hash 0/max, mirrored upper-tail search, linear scan, binary search), the least j in [0,stake] with hash/(2^256-1) <= F(j), and 0 <= j <= stake for any kernel; MakeM is injective; the verifiers accept exactly the recomputed positive seat count, a credential only for its key/seed/index/step/seats (VRF soundness as hypothesis), a priority only if it is the maximum seat hash. The code's float64 kernel is not modelled: the implementation's seat counts are compared with the exact quantile within a stated band on every run (Coq model for stakes <= 240, an independent 640-bit oracle in the harness for stakes up to 10^7), and credentials are verified with the real secp256k1 VRF under every single-field perturbation.",
-    "level_note": "partial: quantile equality is proved for exact arithmetic; float64 rounding of the implementation is validated only within the band eps = 1e-9 + n*2e-14 + (j+2)/p*2^-50 relative to min(F,1-F). Open finding: choose panics when committee > total (theorems C04_total_refuted / C04_total_holds_outside / C04_repaired_*). No axioms.",
-    "check": check,
+    "level_note": "partial: quantile equality is proved for exact arithmetic; float64 rounding of the implementation is validated only within the band eps = 1e-9 + n*2e-14 + (j+2)/p*2^-50 relative to min(F,1-F). Finding fixed by /repo commit 839997b: choose panicked when committee > total (C04_unrepaired_panics_iff / C04_unrepaired_total_refuted; C04_total holds for the code as it is). No axioms.",
     "harness": "c04",
     "hooks": ["consensus/ucon/zz_verif_c04.go"],
     "translators": [],
@@ -52,10 +14,9 @@ SPEC = {
     "obligations": [
         "C04_search_least", "C04_search_postcondition",
         "C04_cdf_is_trial_distribution", "C04_cdf_closed_form", "C04_cdf_mirror",
-        "C04_quantile_partial", "C04_quantile_unique",
-        "C04_seats_in_range", "C04_seats_in_range_any_kernel",
-        "C04_panics_iff", "C04_total_refuted", "C04_total_holds_outside",
-        "C04_repaired_total", "C04_repaired_quantile_partial", "C04_repaired_agrees",
+        "C04_quantile_partial", "C04_quantile_any_committee_partial", "C04_quantile_unique",
+        "C04_seats_total_in_range", "C04_seats_in_range_any_kernel",
+        "C04_unrepaired_panics_iff", "C04_unrepaired_total_refuted", "C04_total", "C04_repair_agrees",
         "C04_MakeM_injective", "C04_verifier_agrees", "C04_prover_verifier_agree", "C04_credential_binding",
         "C04_priority_accept_iff", "C04_priority_max",
         "C04_nonvacuous_search", "C04_nonvacuous_quantile", "C04_nonvacuous_finding",
@@ -79,6 +40,7 @@ SPEC = {
         "float band: the implementation's seat count may differ by one from the exact quantile when hash/(2^256-1) lies within eps*min(F,1-F) of F(j*) or F(j*-1), eps = 1e-9 + n*2e-14 + (j*+2)/p*2^-50 (float64 rounding of 1-p and of cephes.Incbet); a +-1 difference on that set of hashes cannot be decided",
         "VRF completeness (C04_prover_verifier_agree) and VRF proof binding - a proof verifies for one key and one message only (C04_credential_binding) - are hypotheses standing for the secp256k1 VRF; the harness exercises them with the real VRF on every single-field perturbation",
         "Keccak and the VRF enter the model as section variables (tables of observed values in the model run)",
+        "committee/total >= 0 (threshold is a uint64, total stake is positive; a negative probability would still panic in cephes.Incbet and is not modelled)",
         "stakes fit int64 and seat counts uint32 (stake <= 10^7 in the property); hashes are 32 bytes, step and round index uint32",
         "committee/total = 0 with the single hash 2^256-1 returns the whole stake (model and code agree; the quantile theorem assumes 0 < committee/total)",
         "architecture-dependent FMA contraction of float64 expressions is outside the model",
@@ -86,7 +48,6 @@ SPEC = {
     "modelled": ["ucon.search", "ucon.choose", "ucon.MakeM", "ucon.computePriority", "ucon.VrfComputePriority",
                  "ucon.VrfSortition", "ucon.VrfVerifySortition", "ucon.VrfVerifyPriority"],
     "partial": [
-        "C04_quantile_partial / C04_repaired_quantile_partial: proved for exact arithmetic; the float64 kernel (gonum cephes.Incbet, 1-p in float64) is validated within the band only",
-        "C04 totality at full strength (every committee size and total stake) is refuted for the code as it stands (C04_total_refuted); proved outside the finding class and for the repaired function",
+        "C04_quantile_partial / C04_quantile_any_committee_partial: proved for exact arithmetic; the float64 kernel (gonum cephes.Incbet, 1-p in float64) is validated within the band only",
     ],
 }
